@@ -133,7 +133,9 @@ func (set *TreeSet) ToCursor() SetCursor {
 
 func NewTreeCursor(tree *llrb.Tree) SetCursor {
 	result := &treeCursor{}
-	result.next(tree.Root)
+	if tree.Root != nil {
+		result.next(tree.Root)
+	}
 	return result
 }
 
